@@ -797,3 +797,131 @@ func cookiePIDOf(pre *snapshot) string {
 	}
 	return ""
 }
+
+// credHashes: every stored credential hash of a snapshot / the live store, keyed by kind.
+func credHashesOf(users map[string]*world.User, tokens map[string][]string) map[string]string {
+	out := map[string]string{}
+	for pid, u := range users {
+		for _, h := range strings.Split(u.OTPs, ",") {
+			if h != "" {
+				out["otp|"+pid+"|"+h] = "one-time password"
+			}
+		}
+		for _, h := range strings.Split(u.RecoveryCodes, ",") {
+			if h != "" {
+				out["rec|"+pid+"|"+h] = "recovery code"
+			}
+		}
+		if u.RecoverSelector != "" {
+			out["rsel|"+pid+"|"+u.RecoverSelector+"|"+u.RecoverVerifier] = "recovery token"
+		}
+		if u.ConfirmSelector != "" {
+			out["csel|"+pid+"|"+u.ConfirmSelector+"|"+u.ConfirmVerifier] = "confirmation token"
+		}
+	}
+	for pid, ts := range tokens {
+		for _, t := range ts {
+			out["rm|"+pid+"|"+t] = "remember token"
+		}
+	}
+	return out
+}
+
+// trackSpent records credentials that left storage, and (C18) flags one that comes back in a
+// request in which a backend call failed.
+func (m *M) trackSpent(pre *snapshot, injected bool, route, b string) {
+	before := credHashesOf(pre.users, pre.tokens)
+	after := credHashesOf(m.W.Store.Users, m.W.Store.Tokens)
+	for k, kind := range after {
+		if _, ok := before[k]; !ok && m.spent[k] && injected {
+			m.violate("C18", "resurrect:"+strings.SplitN(k, "|", 2)[0], fmt.Sprintf("a spent %s is back in storage after a %s request in which a backend call failed", kind, route), b)
+		}
+	}
+	for k := range before {
+		if _, ok := after[k]; !ok {
+			m.spent[k] = true
+		}
+	}
+}
+
+// checkFault: the C18 monitors, for a request in which an injected backend failure was hit.
+func (m *M) checkFault(b, route string, a Args, pre *snapshot, r *world.Result, f *world.Fault) {
+	post := m.W.B(b)
+	oldU, newU := pre.sess["uid"], post.Sess["uid"]
+	cfg := m.Cfg
+	call := "?"
+	if f.At >= 0 && f.At < len(r.Calls) {
+		call = r.Calls[f.At]
+	}
+	if r.Panic != "" {
+		m.violate("C18", "panic:"+route+":"+call, fmt.Sprintf("panic when backend call %d (%s) of a %s request fails (%s): %s", f.At, call, route, f.Kind, strings.SplitN(r.Panic, "\n", 2)[0]), b)
+		return
+	}
+	cookiePID0 := cookiePIDOf(pre)
+	mwAuth0 := cfg.RememberMW && cfg.Has("remember") && oldU == "" && cookiePID0 != "" && rememberLicence(pre, cookiePID0)
+	issued := newU != "" && newU != oldU
+	// one-time password accepted (session or 2FA parking) while it is still stored
+	if route == "otplogin" {
+		if u := pre.users[a.PID]; u != nil && u.OTPs != "" {
+			h := sha64(a.PW)
+			preN, postN := strings.Count(","+u.OTPs+",", ","+h+","), 0
+			if u1 := m.W.Store.Users[a.PID]; u1 != nil {
+				postN = strings.Count(","+u1.OTPs+",", ","+h+",")
+			}
+			accepted := issued && newU == a.PID || post.Sess["totp_pending"] == a.PID && pre.sess["totp_pending"] != a.PID ||
+				post.Sess["sms_pending"] == a.PID && pre.sess["sms_pending"] != a.PID
+			if preN > 0 && accepted && postN >= preN {
+				m.violate("C18", "unconsumed:otp", fmt.Sprintf("backend call %d (%s) failed, yet the one-time password of %q was accepted while it is still in storage", f.At, call, a.PID), b)
+			}
+		}
+	}
+	// remember cookie accepted while its token is still stored
+	if issued && mwAuth0 && newU == cookiePID0 && rememberLicenceLive(m, pre, cookiePID0) {
+		m.violate("C18", "unconsumed:remember", fmt.Sprintf("backend call %d (%s) failed, yet the remember cookie of %q logged in while its token is still in storage", f.At, call, newU), b)
+	}
+	// recovery code accepted while still stored
+	if (route == "totpvalidate" || route == "smsvalidate") && a.RCode != "" && issued && !(mwAuth0 && post.Sess["halfauth"] == "true") {
+		if u0, u1 := pre.users[newU], m.W.Store.Users[newU]; u0 != nil && u1 != nil && recCodeValid(u0, a.RCode) && recCodeValid(u1, a.RCode) &&
+			strings.Count(u1.RecoveryCodes, ",") >= strings.Count(u0.RecoveryCodes, ",") {
+			m.violate("C18", "unconsumed:reccode", fmt.Sprintf("backend call %d (%s) failed, yet a recovery code of %q completed the login while it is still in storage", f.At, call, newU), b)
+		}
+	}
+	// security state never gets weaker by a failing request
+	for pid, u0 := range pre.users {
+		u1 := m.W.Store.Users[pid]
+		if u1 == nil {
+			m.violate("C18", "weaken:account-gone", fmt.Sprintf("account %q disappeared in a failing %s request", pid, route), b)
+			continue
+		}
+		if u1.Confirmed && !u0.Confirmed && route != "confirm" {
+			m.violate("C18", "weaken:confirmed", fmt.Sprintf("account %q became confirmed in a failing %s request", pid, route), b)
+		}
+		if u0.Locked.After(pre.now) && u1.Locked.Before(u0.Locked) {
+			m.violate("C18", "weaken:lock", fmt.Sprintf("the lock of %q was shortened in a failing %s request", pid, route), b)
+		}
+		if u0.TOTPSecretKey != "" && u1.TOTPSecretKey == "" && route != "totpremove" {
+			m.violate("C18", "weaken:totp", fmt.Sprintf("TOTP of %q was switched off in a failing %s request", pid, route), b)
+		}
+		if u0.SMSPhoneNumber != "" && u1.SMSPhoneNumber == "" && route != "smsremove" {
+			m.violate("C18", "weaken:sms", fmt.Sprintf("SMS 2FA of %q was switched off in a failing %s request", pid, route), b)
+		}
+		if u1.Password != u0.Password && route != "recend" {
+			m.violate("C18", "weaken:password", fmt.Sprintf("the password of %q changed in a failing %s request", pid, route), b)
+		}
+	}
+}
+
+// rememberLicenceLive: the token of the cookie held before the request is still stored now.
+func rememberLicenceLive(m *M, pre *snapshot, U string) bool {
+	raw, err := base64.URLEncoding.DecodeString(pre.cook["rm"])
+	if err != nil {
+		return false
+	}
+	h := sha64(string(raw))
+	for _, t := range m.W.Store.Tokens[U] {
+		if t == h {
+			return true
+		}
+	}
+	return false
+}
